@@ -47,7 +47,7 @@ def one(job):
 
 jobs = []
 for prop in sorted(os.listdir(src)):
-    for v in ("a", "b", "c"):
+    for v in sorted(x for x in os.listdir(os.path.join(src, prop)) if len(x) == 1):
         d = os.path.join(src, prop, v)
         if not os.path.isfile(os.path.join(d, "patch.diff")):
             continue
